@@ -239,7 +239,7 @@ def trace_conf(records, cfgrec, wd, name, timeout, max_restarts=4, appname=None)
     """Validate recorded streams as behaviours of Cobweb.tla. Returns (accepted ids, rejected [(id, record index)])."""
     from concurrent.futures import ThreadPoolExecutor
     consts = configs.C(NSys=len(cfgrec["kinds"]), NOnce=cfgrec.get("nonce", 0), NW=cfgrec.get("nworld", 0), NER=cfgrec.get("neworld", 0),
-                       NEnt=cfgrec.get("nent", 1), Hier=cfgrec.get("hier", 0), Excl={i + 1 for i, k in enumerate(cfgrec["kinds"]) if k == "excl"}, NTy=2, NVal=2, MaxOps=0, Budget=0,
+                       NEnt=cfgrec.get("nent", 1), Hier=cfgrec.get("hier", 0), Excl={i + 1 for i, k in enumerate(cfgrec["kinds"]) if k == "excl"}, RcSys=set(cfgrec.get("rcsys", [])), NTy=2, NVal=2, MaxOps=0, Budget=0,
                        MaxSteps=0, StepKinds=set(), Scripted=True)
     cfg = os.path.join(wd, "TC_%s.cfg" % name)
     tlc.write_cfg(cfg, "TCSpec", consts, constraints=["Progress"], postconditions=["Report"],
